@@ -73,7 +73,8 @@ class Expr(core.Expr):
     _is_length_preserving = False
     _filter_passthrough = False
     # The rows keep their labels: a predicate that reads the index of self can
-    # be evaluated on self.frame just as well
+    # be evaluated on self.frame just as well (see is_filter_pushdown_available
+    # and same_rows_source)
     _keeps_index = True
 
     def _filter_passthrough_available(self, parent, dependents):
@@ -413,6 +414,11 @@ class Expr(core.Expr):
     @property
     def _projection_columns(self):
         return self.columns
+
+    @property
+    def _rows_key(self):
+        """Expressions with the same key are known to have the same index"""
+        return self._name
 
     @property
     def name(self):
@@ -2117,6 +2123,7 @@ class Index(Elemwise):
 
     _parameters = ["frame"]
     operation = getattr
+    _keeps_index = False  # the result is an Index, it doesn't have one
 
     @functools.cached_property
     def _meta(self):
@@ -2389,6 +2396,7 @@ class AddSuffix(AddPrefix):
 class AssignIndex(Elemwise):
     _parameters = ["frame", "value"]
     operation = staticmethod(methods.assign_index)
+    _keeps_index = False  # the labels are those of value
 
     def _divisions(self):
         return self.value.divisions
@@ -3169,37 +3177,42 @@ def are_co_aligned(*exprs):
     return len(unique_ancestors) <= 1
 
 
-def same_rows_source(expr, _cache=None):
+def same_rows_source(expr, index=False, _cache=None):
     """Deepest expression below ``expr`` that provably has the rows of ``expr``
 
     The dependencies of a length preserving operation are co-aligned, which only
     says that they are partitioned alike: a filtered operand misses rows and pandas
     aligns on the union of the indexes. Such an operation is only passed if all of
-    its row-wise dependencies lead to the same source.
+    its row-wise dependencies lead to the same source. With ``index=True`` only
+    elementwise operations that keep the index labels (``_keeps_index``) are
+    passed: the source has the same index as ``expr``, not just as many rows. A
+    shuffle or a sort keeps the label of every row but not their order.
     """
     cache = {} if _cache is None else _cache
     if expr._name not in cache:
         result = expr
-        if expr._is_length_preserving:
+        if expr._is_length_preserving and (
+            not index or (isinstance(expr, Elemwise) and expr._keeps_index)
+        ):
             sources = {}
             for dep in expr.dependencies():
                 if dep.ndim == 0 or (
                     isinstance(expr, Blockwise) and expr._broadcast_dep(dep)
                 ):
                     continue
-                source = same_rows_source(dep, cache)
-                if isinstance(source, IO):
-                    # Account for column projection within IO expressions
-                    key = _tokenize_partial(
-                        source, ["columns", "_series", "_dataset_info_cache"]
-                    )
-                else:
-                    key = source._name
-                sources[key] = source
+                source = same_rows_source(dep, index, cache)
+                sources[rows_source_key(source)] = source
             if len(sources) == 1:
                 (result,) = sources.values()
         cache[expr._name] = result
     return cache[expr._name]
+
+
+def rows_source_key(source):
+    if isinstance(source, IO):
+        # Account for column projection within IO expressions
+        return _tokenize_partial(source, ["columns", "_series", "_dataset_info_cache"])
+    return source._rows_key
 
 
 ## Utilites for Expr fusion
